@@ -11,11 +11,11 @@ from dst.core import Result, hx, unhx
 
 ID = "C11"
 LEVEL = "exploration"
-RUNS = {"quick": 2000, "thorough": 40000}
+RUNS = {"quick": 1500, "thorough": 30000}
 CHUNK = {"quick": 20, "thorough": 100}
 PROBES = ["read_after_modification", "stale_cache_opportunity", "nested_modification_via_tree", "variant_block", "default_variant",
           "data_transform_list", "execute_list", "beacon_gate_list", "repeated_option", "repeated_block", "kwargs_style",
-          "calls_style", "reparse", "empty_block", "binary_transform_arg", "pair_statement"]
+          "calls_style", "reparse", "empty_block", "pair_statement"]
 RULE = ("seeded histories (2-24 ops) on one C2Profile: 'add' ops append a global option or a fully built block (all 11 "
         "block kinds, options by alias/keyword table, header/parameter/strrep pairs, data-transform lists in the six "
         "non-variant list paths, execute and BeaconGate lists, process-inject transform-x86) built either through kwargs "
